@@ -149,7 +149,7 @@ package leader
 
 //@ iface KeyValue.Update(key, value, rev, opts)
 //@   requires C01.key_is_group: key == e.key
-//@   requires C01+C10+C05.update_is_refresh_or_takeover: Refresh(e, value, rev) || Takeover(e, value, rev)
+//@   requires C01+C10+C05+C13.update_is_refresh_or_takeover: Refresh(e, value, rev) || Takeover(e, value, rev)
 //@   assumes result1 == nil ==> Own(result0) && result0 > rev && PubTok(result0) == TokenOf(value) && PubID(result0) == IDOf(value) && OwnTok(TokenOf(value))
 
 //@ iface KeyValue.Get(key)
@@ -159,7 +159,7 @@ package leader
 
 //@ iface KeyValue.Delete(key)
 //@   requires C01.key_is_group: key == e.key
-//@   requires C01.delete_only_by_stopping_leader: caller.mayDelete
+//@   requires C01+C02.delete_only_by_stopping_leader: caller.mayDelete
 //@   requires C01.delete_after_claim_cleared: $claimCleared
 //@   requires C01.delete_by_current_owner: OwnsRecordNow(e)
 
@@ -511,7 +511,7 @@ package leader
 //@   on select as s assert C09.stop_waits_time_boxed: s.blocking ==> s.hasAfter
 //@   ensures C08.demote_iff_claim_cleared: result == nil && !ctxNilL ==> (wasLeaderL ? (calls(onDemote) + scalls(onDemote) == 1 || (calls(onDemote) + scalls(onDemote) == 0 && demoteNilSeen)) : calls(onDemote) + scalls(onDemote) == 0)
 //@   ensures C09.delete_issued: result == nil && !ctxNilL && opts.DeleteKey && wasLeaderL ==> calls(KeyValue.Delete) == 1
-//@   ensures C01.delete_only_with_option: !(opts.DeleteKey && wasLeaderL) ==> calls(KeyValue.Delete) == 0
+//@   ensures C01+C02.delete_only_with_option: !(opts.DeleteKey && wasLeaderL) ==> calls(KeyValue.Delete) == 0
 //@   ensures C09.second_stop: ctxNilL ==> result == ErrAlreadyStopped && calls(cancel) == 0 && calls(onDemote) == 0 && calls(KeyValue.Delete) == 0
 
 //@ func (e *kvElection) Status()
@@ -621,7 +621,7 @@ package leader
 //@   on load kvElection.token as l assert C01.revision_before_token: revLoaded
 //@   on load kvElection.token as l set lastTok = l.value
 //@   on call json.Marshal as m assert C05.heartbeat_payload: m.v.ID == e.cfg.InstanceID && m.v.Token == lastTok && m.v.Priority == e.cfg.Priority
-//@   on call time.After as a assert C03.timeout_value: a.d == max(e.cfg.HeartbeatInterval / 2, 1000000000)
+//@   on call time.After as a assert C03+C07.timeout_value: a.d == max(e.cfg.HeartbeatInterval / 2, 1000000000)
 //@   on call KeyValue.Update assert C03.attempt_time_boxed: inspawn()
 //@   on call KeyValue.Get assert C03.attempt_time_boxed: inspawn()
 //@   on recv local as r set attErr = r.value.err
@@ -716,9 +716,22 @@ package leader
 //@   tags C06 C13 C01
 //@   requires C09.nil_ctx: ctx != nil
 //@   ghost sawDone Bool = false
+//@   ghost tickerArmed Bool = false
+//@   ghost tick Bool = false
+//@   ghost leaderSeen Bool = false
+//@   ghost checked Bool = false
 //@   on recv ctx.Done set sawDone = true
 //@   on call time.NewTicker as t assert C06.periodic_check_constant: t.d == 500000000
-//@   on call checkKeyAndReelect assert C06.periodic_check_when_follower: true
+//@   on call time.NewTicker as t set tickerArmed = t.d == 500000000
+//@   on select as s assert C06.periodic_check_in_every_wait: s.hasTicker
+//@   on recv ticker set tick = true
+//@   on recv ticker set leaderSeen = false
+//@   on recv ticker set checked = false
+//@   on load kvElection.isLeader as l set leaderSeen = l.value
+//@   on call checkKeyAndReelect set checked = true
+//@   on backedge 0 assert C06.periodic_check_when_follower: tick ==> (leaderSeen || checked)
+//@   on backedge 0 set tick = false
+//@   loop 0 invariant C06.periodic_check_armed: tickerArmed && !tick
 //@   on return assert C06.loop_ends_only_on_cancel: sawDone
 
 //@ func (e *kvElection) checkKeyAndReelect(ctx)
@@ -732,6 +745,8 @@ package leader
 //@   on ret KeyValue.Get as g set getErr = g.result1
 //@   on ret KeyValue.Get as g set getEnt = g.result0
 //@   on ret KeyValue.Get set got = true
+//@   on store kvElection.revision assert C07+C01.leader_never_adopts_observed_revision: !sawLeader
+//@   on store kvElection.leaderID assert C07+C18.leader_never_adopts_observed_id: !sawLeader
 //@   ensures C06.vacancy_triggers_acquire: got && (getErr != nil || getEnt == nil || LenOf(EntryVal(getEnt)) == 0) ==> spawns(attemptAcquireWithRetry) == 1
 //@   ensures C13.no_acquire_on_live_record: got && getErr == nil && getEnt != nil && LenOf(EntryVal(getEnt)) != 0 ==> spawns(attemptAcquireWithRetry) == 0
 //@   ensures C06.leader_skips: !got ==> spawns(attemptAcquireWithRetry) == 0
@@ -746,6 +761,8 @@ package leader
 //@   on load kvElection.isLeader as l set sawLeader = l.value
 //@   on load kvElection.revision as l set ownRev = l.value
 //@   on load kvElection.revision set revLoaded = true
+//@   on store kvElection.revision assert C07+C01.leader_never_adopts_observed_revision: !sawLeader
+//@   on store kvElection.leaderID assert C07+C18.leader_never_adopts_observed_id: !sawLeader
 //@   on call becomeFollower set demote_cause = sawLeader && ParseOK(EntryVal(entry)) && IDOf(EntryVal(entry)) != e.cfg.InstanceID && revLoaded && EntryRev(entry) > ownRev
 //@   on ret becomeFollower as r set cleared = r.cleared
 //@   on spawn handleWatchEvent$1 assert C10.watch_gate: e.cfg.AllowPriorityTakeover && ParseOK(EntryVal(entry)) && e.cfg.Priority > PrioOf(EntryVal(entry))
